@@ -1,3 +1,5 @@
 SPECIFICATION Spec
+CONSTANTS
+  NoGitRec = TRUE
 INVARIANT Done
 CHECK_DEADLOCK FALSE
